@@ -178,6 +178,18 @@ def run(ctx):
                 ps = pieces(r[0]) if len(r) == 1 else None
                 ok = ps is not None and len(ps) == 2 and field_of(ps[0]) == want and (is_zero(ps[1]) if nm == "begin" else literal_value(ps[1]) is not None)
                 ctx.check(bool(ok), "R20.1", f, "proxy-%s" % nm, "enumerate_proxy::%s() returns %s (expected the range's %s%s)" % (nm, [fmt(x) for x in r], want, " with index 0" if nm == "begin" else ""), f)
+        # a one-past-the-end iterator may carry any index only as long as nothing can step BACK from it: once the iterator can be
+        # decremented (or compared by index), end() has to carry the element count, otherwise the element in front of end() is
+        # paired with index 0 - 1
+        backward = P(lambda f: f.cls == it_cls and (f.op in ("--", "-=", "-", "+=", "+", "[]")))
+        if backward:
+            for nm0, cls0 in (("end", NS + "detail::enumerate_proxy"), ("end", NS + "detail::enumerate")):
+                for f in P(lambda f, cls0=cls0: f.cls == cls0 and f.name == "end"):
+                    r = rets(f)
+                    ps = pieces(r[0]) if len(r) == 1 else None
+                    lit_idx = ps is not None and len(ps) == 2 and literal_value(ps[1]) is not None
+                    ctx.check(not lit_idx, "R20.1", f, "end-index-when-steppable-backwards", "%s::end() builds its iterator with the constant index %s while the iterator offers %s: stepping back from end() "
+                              "pairs the last element with index %s - 1 (the index wraps around)" % (short(cls0), fmt(ps[1]) if ps else "?", sorted({g.op for g in backward}), fmt(ps[1]) if ps else "0"), f)
         _, er = ctor_roles(NS + "detail::enumerate", 1)
         C1 = er.get(0) if er else None
         for nm in ("begin", "end"):
